@@ -32,10 +32,6 @@ func VerifC29NewNode(networkId crypto.Hash, epoch uint64, sorted []*CNode, genes
 
 func (node *Node) VerifSetGraphTimestamp(ts uint64) { node.GraphTimestamp = ts }
 
-func (node *Node) VerifElectSnapshotNode(operation byte, now uint64) crypto.Hash {
-	return node.electSnapshotNode(operation, now)
-}
-
 func (node *Node) VerifCheckRemovePossibility(nodeId crypto.Hash, now uint64, old *common.VersionedTransaction) (*CNode, error) {
 	return node.checkRemovePossibility(nodeId, now, old)
 }
@@ -46,10 +42,6 @@ func (node *Node) VerifCheckConsensusAcceptHour(timestamp uint64) bool {
 
 func (node *Node) VerifCheckConsensusPledgeHour(timestamp uint64) bool {
 	return node.checkConsensusPledgeHour(timestamp)
-}
-
-func (node *Node) VerifRemovingOrSlashingNodeAt(timestamp uint64) *CNode {
-	return node.removingOrSlashingNodeAt(timestamp)
 }
 
 func VerifPrepareNodeRemovalTime(now, epoch uint64) (uint64, bool) {
